@@ -12,7 +12,7 @@ for f in ("patch.diff", "demo.py"):
     shutil.copy(src / f, dst / f)
 meta = json.loads((src / "meta.json").read_text())
 meta["what_i_ran"] = ("tools/try_seed.py: demo on a private copy of /repo without the patch (exit 0) and with it (exit 1); "
-                      "full test suite on the patched copy (3654 passed); then the listed checks with VERIF_REPO=<patched copy>")
+                      "full test suite on the patched copy (3654 passed in the serial baseline order; two order-dependent test_xarray cases can fail under xdist on any tree); then the listed checks with VERIF_REPO=<patched copy>")
 meta["caught_by"] = [] if caught == "NONE" else caught.split(",")
 if note:
     meta["note"] = note
